@@ -762,7 +762,7 @@ func checkEtcdAnswersFromEtcd(m *Module, r *Report, methods []string) {
 					yieldsNil = true
 				}
 			}
-			if !yieldsNil {
+			if !yieldsNil || nilness(ret.Results[len(ret.Results)-1], b) == isNonNil {
 				continue
 			}
 			n++
